@@ -66,3 +66,33 @@ fn t19_mul_div_sign_rule_on_boundary_values() {
         }
     }
 }
+
+/// Conformance TEST for the std string contracts assumed by the verified `Integer::from_str` (shim/base.rs: str_first_byte,
+/// str_after_first_byte, str_parse_u128, axiom_uint_str_shape): decimal text of a u128 is a non-empty digit string that parses back,
+/// `&s[..1]` / `&s[1..]` split off exactly the first character when it is one byte and abort otherwise (empty string, multi-byte first char),
+/// and `parse::<u128>` rejects text that starts with the sign character.
+#[test]
+fn t19_std_string_contracts_used_by_from_str() {
+    for m in [0u128, 1, 9, 10, 12345, u64::MAX as u128, 10u128.pow(38), u128::MAX] {
+        let s = m.to_string();
+        assert!(!s.is_empty() && s.chars().all(|c| c.is_ascii_digit()), "decimal text {}", s);
+        assert_eq!(s.parse::<u128>().unwrap(), m);
+        let neg = format!("-{}", s);
+        assert_eq!(&neg[..1], "-");
+        assert_eq!(&neg[1..], s.as_str());
+        assert!(neg.parse::<u128>().is_err());
+        assert_eq!(&s[..1].chars().count(), &1);
+        assert_eq!(format!("{}{}", &s[..1], &s[1..]), s);
+    }
+    assert!("340282366920938463463374607431768211456".parse::<u128>().is_err()); // u128::MAX + 1
+    assert!("".parse::<u128>().is_err());
+    assert!(std::panic::catch_unwind(|| { let e = String::new(); let _ = &e[..1]; }).is_err(), "empty string: byte slicing aborts");
+    assert!(std::panic::catch_unwind(|| { let e = String::from("é1"); let _ = &e[..1]; }).is_err(), "multi-byte first character: byte slicing aborts");
+    // the real parser on those inputs (partial-correctness reading: it aborts, the contract says nothing about a returned value)
+    assert!(std::panic::catch_unwind(|| Integer::from_str("")).is_err());
+    // accepted / rejected exactly as str_int says
+    assert!(Integer::from_str("-").is_err());
+    assert!(Integer::from_str("--1").is_err());
+    assert!(Integer::from_str("-0").unwrap() == Integer::zero());
+    assert!(Integer::from_str("+5").is_ok() == "+5".parse::<u128>().is_ok());
+}
